@@ -565,6 +565,50 @@ fn shard_pool_scenarios(out: &mut NdjsonWriter, seed: u64, n: u64) {
     }
 }
 
+/// C15: the wallet is caught up with the tip it knows (its queue ends at the block after the highest scanned one);
+/// while it is away the chain grows and every pool completes a shard a few blocks above that tip; the roots arrive;
+/// then the wallet learns the new tip at a chosen distance from the highest scanned block -- 99, exactly the pruning
+/// depth (the Verify range is EMPTY and the last-shard ChainTip entry starts above everything queued: the heights
+/// between become Historic), 101, 110 -- and the sync client must scan every block.
+fn absence_scenarios(out: &mut NdjsonWriter, seed: u64) {
+    let all = [Pool::Sapling, Pool::Orchard, Pool::Ironwood];
+    for (k, dist) in [100u32, 99, 101, 100, 110, 100].into_iter().enumerate() {
+        let ironwood = k % 3 == 2;
+        let np = if ironwood { 3 } else { 2 };
+        let left: [u64; 3] = [2 + (k as u64 % 2), 2, 3];
+        let sizes: [u64; 3] = [65536 - left[0], 65536 - left[1], if ironwood { 65536 - left[2] } else { 0 }];
+        let (mut r, _priors) = Run::sharded_ext(out, seed.wrapping_mul(2_750_159).wrapping_add(k as u64), ironwood, sizes, false, 50, json!(format!("absence {k} dist={dist} iw={ironwood}")));
+        r.no_env_rewinds = true;
+        let one = |r: &mut Run, outs: &[(Pool, bool)]| {
+            let outs: Vec<OutReq> = outs.iter().map(|(pool, mine)| { let value = r.value(); OutReq { pool: *pool, acct: if *mine { 1 } else { 0 }, internal: false, diversified: false, value } }).collect();
+            if outs.is_empty() { r.block(&[], &[], false); } else { r.block(&[TxReq { outs, spends: vec![], foreign_spends: vec![] }], &[], false); }
+        };
+        // two blocks, one commitment per pool (no shard completed yet); the wallet catches up
+        one(&mut r, &all[..np].iter().map(|p| (*p, *p == Pool::Sapling)).collect::<Vec<_>>());
+        one(&mut r, &[]);
+        r.tip_top();
+        let base = r.chain.base;
+        r.scan(base + 1, 2);
+        let ms = r.chain.top();
+        // the absence: every pool completes its shard (2 + pool index blocks above the old tip, the boundary block of
+        // the first pool also holds the first leaf of the next shard, the wallet's), more blocks up to the distance
+        one(&mut r, &[]);
+        for (j, p) in all[..np].iter().enumerate() {
+            let mut outs: Vec<(Pool, bool)> = (0..left[j] - 1).map(|_| (*p, false)).collect();
+            if j == 0 { outs.push((*p, true)); }
+            one(&mut r, &outs);
+        }
+        let have = r.chain.top() - ms;
+        r.empties(dist - have);
+        // the roots of the completed shards arrive (index 0 of every pool), in the order of completion / reversed
+        let mut roots = r.chain.shard_roots.clone();
+        if k % 2 == 1 { roots.reverse(); }
+        for (pool, index, root, h) in roots { r.put_priors(pool, index, &[(root, h)]); }
+        r.tip_top();
+        r.sync_loop(0);
+    }
+}
+
 /// C15, queue hygiene (WalletQueue.tla Prune / QueueRescans): histories in which prune_scan_queue_below (every retain
 /// form, heights at and around the boundaries of the stored ranges) and queue_rescans (forced, over scanned and
 /// unscanned heights, one or two ranges) are interleaved with tip updates, scans of any range, rewinds and new blocks.
@@ -673,6 +717,7 @@ fn main() {
         if args.get(4).map(|s| s == "pools").unwrap_or(false) {
             let m: u64 = args.get(5).map(|s| s.parse().unwrap()).unwrap_or(12);
             shard_pool_scenarios(&mut out, seed_from_env(), m);
+            absence_scenarios(&mut out, seed_from_env());
         }
     } else if args[2] == "queue-ops" {
         let n: u64 = args.get(3).map(|s| s.parse().unwrap()).unwrap_or(8);
